@@ -10,10 +10,10 @@ package main
 import (
 	"encoding/json"
 	"fmt"
-	"sort"
 	"strings"
 	"sync"
 	"sync/atomic"
+	"time"
 
 	"github.com/google/badwolf/storage"
 	"github.com/google/badwolf/triple"
@@ -33,304 +33,25 @@ type kase struct {
 	Gen string `json:"gen"`
 }
 
-func union(data map[string][]*triple.Triple, from []string) (all []*triple.Triple, overlap bool) {
-	seen := map[string]int{}
-	for _, g := range from {
-		for _, t := range data[g] {
-			k := model.TripleKey(t)
-			seen[k]++
-			if seen[k] > 1 {
-				overlap = true
-			} else {
-				all = append(all, t)
-			}
-		}
-	}
-	return
-}
-
-type verdict struct {
-	ok         bool
-	class      string
-	shape      string
-	detail     string
-	accepted   bool
-	nontrivial bool
-	outcome    string
-}
-
-func support(rows []string) map[string]int {
-	m := map[string]int{}
-	for _, r := range rows {
-		m[r]++
-	}
-	return m
-}
-
-// compare runs q on st and compares with the reference evaluator.
-func compare(q *bqlm.Query, st storage.Store, data map[string][]*triple.Triple, chanSize int) verdict {
-	text := q.Render()
-	all, overlap := union(data, q.From)
-	sols := bqlm.Solutions(q.Where, all, q.GLo, q.GHi)
-	want := bqlm.Project(sols, q.Proj)
-	var cols []string
-	for _, p := range q.Proj {
-		cols = append(cols, p.Out())
-	}
-	res := bqlm.Exec(st, text, chanSize, 0, cols)
-	v := verdict{class: classify(q, all)}
-	v.nontrivial = len(want) > 0 && len(want) < len(all)*max(1, len(all))
-	switch res.Stage {
-	case "parse":
-		v.ok, v.outcome = true, "rejected-at-parse"
-		return v
-	case "plan":
-		v.ok, v.outcome = true, "rejected-at-plan"
-		return v
-	case "execute":
-		v.accepted = true
-		v.shape = "execute-error:" + normErr(res.Err)
-		v.detail = fmt.Sprintf("%s\n data=%v\n want %d rows %v\n got error: %s", text, fmtData(data, q.From), len(want), want, res.Err)
-		v.outcome = "execute-error"
-		return v
-	case "panic", "hang":
-		v.accepted = true
-		v.shape = res.Stage + ":" + normErr(res.Err)
-		v.detail = fmt.Sprintf("%s\n data=%v\n %s: %s", text, fmtData(data, q.From), res.Stage, res.Err)
-		v.outcome = res.Stage
-		return v
-	}
-	v.accepted = true
-	if res.NilBoth {
-		v.shape = "nil-table-nil-error"
-		v.detail = text
-		return v
-	}
-	got := res.Sorted()
-	v.outcome = fmt.Sprintf("rows=%d", len(got))
-	if overlap {
-		// multiplicities are left open: equal support, count between max and sum
-		ws, gs := support(want), support(got)
-		ok := len(ws) == len(gs)
-		for k := range ws {
-			if gs[k] < 1 {
-				ok = false
-			}
-		}
-		if ok {
-			v.ok = true
-			return v
-		}
-	} else if model.SameStrings(want, got) {
-		v.ok = true
-		return v
-	}
-	// Precise shapes for the recorded findings: the result is exactly what a
-	// named deviation predicts. Anything else falls through to the generic shapes.
-	if !overlap {
-		if model.SameStrings(bqlm.Project(bqlm.BagSolutions(q.Where, all, q.GLo, q.GHi), q.Proj), got) {
-			v.shape = "one-row-per-matching-triple-combination-instead-of-per-assignment"
-			v.detail = fmt.Sprintf("%s\n data=%v\n want %d rows %v\n got  %d rows %v", text, fmtData(data, q.From), len(want), want, len(got), got)
-			return v
-		}
-		var kept []bqlm.Clause
-		for _, c := range q.Where {
-			if len(c.Bindings()) > 0 {
-				kept = append(kept, c)
-			}
-		}
-		if len(kept) < len(q.Where) {
-			if len(got) == 0 {
-				v.shape = "clause-without-bindings-empties-the-result"
-			} else if model.SameStrings(bqlm.Project(bqlm.BagSolutions(kept, all, q.GLo, q.GHi), q.Proj), got) {
-				v.shape = "clause-without-bindings-is-ignored"
-			}
-			if v.shape != "" {
-				v.detail = fmt.Sprintf("%s\n data=%v\n want %d rows %v\n got  %d rows %v", text, fmtData(data, q.From), len(want), want, len(got), got)
-				return v
-			}
-		}
-	}
-	ws, gs := support(want), support(got)
-	missing, extra := 0, 0
-	for k, n := range ws {
-		if gs[k] < n {
-			missing += n - gs[k]
-		}
-	}
-	for k, n := range gs {
-		if ws[k] < n {
-			extra += n - ws[k]
-		}
-	}
-	switch {
-	case missing > 0 && extra > 0:
-		v.shape = "rows-missing-and-extra"
-	case missing > 0:
-		v.shape = "rows-missing"
-	default:
-		v.shape = "rows-extra"
-	}
-	v.detail = fmt.Sprintf("%s\n data=%v\n want %d rows %v\n got  %d rows %v", text, fmtData(data, q.From), len(want), want, len(got), got)
-	return v
-}
-
-func fmtData(data map[string][]*triple.Triple, from []string) string {
-	var sb strings.Builder
-	for _, g := range from {
-		sb.WriteString(g + ":{")
-		for i, t := range data[g] {
-			if i > 0 {
-				sb.WriteString(" | ")
-			}
-			sb.WriteString(strings.ReplaceAll(t.String(), "\t", " "))
-		}
-		sb.WriteString("} ")
-	}
-	return sb.String()
-}
-
-func normErr(e string) string {
-	// keep the stable head of the message, drop values
-	for _, cut := range []string{"AppendTable can only append", "runtime error: index out of range", "invalid memory address", "does not box a predicate", "does not box", "DotProduct operations requires disjoint", "cannot project against unknown binding"} {
-		if strings.Contains(e, cut) {
-			return cut
-		}
-	}
-	if len(e) > 60 {
-		e = e[:60]
-	}
-	return e
-}
-
-// classify computes the input classifier from the case alone.
-func classify(q *bqlm.Query, data []*triple.Triple) string {
-	var fs []string
-	add := func(s string) {
-		for _, f := range fs {
-			if f == s {
-				return
-			}
-		}
-		fs = append(fs, s)
-	}
-	hasLitObj, hasPredObj := false, false
-	for _, t := range data {
-		if _, err := t.Object().Literal(); err == nil {
-			hasLitObj = true
-		}
-		if _, err := t.Object().Predicate(); err == nil {
-			hasPredObj = true
-		}
-	}
-	_ = hasPredObj
-	spec := func(c bqlm.Clause) int {
-		n := 0
-		if c.S.Kind == bqlm.Const {
-			n++
-		}
-		if c.P.Kind == bqlm.Const {
-			n++
-		}
-		if c.O.Kind == bqlm.Const {
-			n++
-		}
-		return n
-	}
-	// where each binding is used
-	use := map[string]map[string]bool{}
-	note := func(b, pos string) {
-		if b == "" {
-			return
-		}
-		if use[b] == nil {
-			use[b] = map[string]bool{}
-		}
-		use[b][pos] = true
-	}
-	for i, c := range q.Where {
-		if spec(c) == 3 && i > 0 {
-			add("fully-specified-clause-not-first")
-		}
-		if spec(c) < 3 && len(c.Bindings()) == 0 {
-			add("clause-without-bindings")
-		}
-		if (c.P.Kind == bqlm.Bound && c.P.As == "") || (c.O.Kind == bqlm.Bound && c.O.As == "") {
-			add("time-range-term-without-alias")
-		}
-		if c.O.IDAlias != "" && c.O.Kind == bqlm.Bind && hasLitObj {
-			add("object-binding-ID-alias-over-literal-objects")
-		}
-		if c.S.Kind == bqlm.Bind {
-			note(c.S.Name, "S")
-		}
-		if c.P.Kind == bqlm.Bind {
-			note(c.P.Name, "P")
-		}
-		if c.P.Kind == bqlm.AnchorBind {
-			note(c.P.Name, "pa")
-		}
-		if c.O.Kind == bqlm.Bind {
-			note(c.O.Name, "O")
-		}
-		if c.O.Kind == bqlm.AnchorBind {
-			note(c.O.Name, "oa")
-		}
-		for _, t := range []bqlm.Term{c.S, c.P, c.O} {
-			note(t.As, "as")
-			note(t.IDAlias, "id")
-			note(t.TypeAlias, "type")
-			note(t.AtAlias, "at")
-		}
-	}
-	var bs []string
-	for b := range use {
-		bs = append(bs, b)
-	}
-	sort.Strings(bs)
-	for _, b := range bs {
-		var ps []string
-		for p := range use[b] {
-			ps = append(ps, p)
-		}
-		if len(ps) > 1 {
-			sort.Strings(ps)
-			add("binding-shared:" + strings.Join(ps, "+"))
-		}
-	}
-	if len(fs) == 0 {
-		return "plain"
-	}
-	sort.Strings(fs)
-	return strings.Join(fs, ",")
-}
-
-func max(a, b int) int {
-	if a > b {
-		return a
-	}
-	return b
-}
-
 type stats struct {
 	evals, accepted, nontrivial int64
 	outcomes                    sync.Map
 }
 
-func (s *stats) note(v verdict) {
+func (s *stats) note(v bqlm.Verdict) {
 	atomic.AddInt64(&s.evals, 1)
-	if v.accepted {
+	if v.Accepted {
 		atomic.AddInt64(&s.accepted, 1)
 	}
-	if v.nontrivial && v.accepted {
+	if v.Nontrivial && v.Accepted {
 		atomic.AddInt64(&s.nontrivial, 1)
 	}
-	s.outcomes.Store(v.outcome, true)
+	s.outcomes.Store(v.Outcome, true)
 }
 
-func report(r *common.Run, st *stats, check, gen string, q *bqlm.Query, data map[string][]*triple.Triple, v verdict) {
+func report(r *common.Run, st *stats, check, gen string, q *bqlm.Query, data map[string][]*triple.Triple, v bqlm.Verdict) {
 	st.note(v)
-	if v.ok {
+	if v.Ok {
 		return
 	}
 	gs := map[string][]string{}
@@ -339,17 +60,18 @@ func report(r *common.Run, st *stats, check, gen string, q *bqlm.Query, data map
 			gs[g] = append(gs[g], t.String())
 		}
 	}
-	r.Fail(common.Failure{Check: check, Class: v.class, Shape: v.shape, Case: kase{Text: q.Render(), Graphs: gs, Gen: gen}, Detail: v.detail})
+	r.Fail(common.Failure{Check: check, Class: v.Class, Shape: v.Shape, Case: kase{Text: q.Render(), Graphs: gs, Gen: gen}, Detail: v.Detail})
 }
 
 // ---- one-clause exploration -----------------------------------------------------
 
 func oneClauseQueries(pairs bool) []*bqlm.Query {
 	var qs []*bqlm.Query
+	t1, t2, t3 := model.T1, model.T2, model.T3
 	globals := []struct {
 		kind   string
-		lo, hi bool
-	}{{"", false, false}, {"before", false, true}, {"after", true, false}, {"between", true, true}}
+		lo, hi *time.Time
+	}{{"", nil, nil}, {"before", nil, &t1}, {"after", &t2, nil}, {"between", &t1, &t2}, {"after", &t1, nil}, {"between", &t2, &t3}}
 	for _, base := range bqlm.BaseClauses() {
 		for _, named := range bqlm.Namings([]bqlm.Clause{base}) {
 			c := named[0]
@@ -374,19 +96,12 @@ func oneClauseQueries(pairs bool) []*bqlm.Query {
 				if len(vc.Bindings()) == 0 {
 					continue // SELECT needs at least one binding
 				}
-				for _, g := range globals {
-					q := &bqlm.Query{From: []string{"?g"}, Where: []bqlm.Clause{vc}, GlobalKind: g.kind}
+				for gi, g := range globals {
+					if gi > 0 && vc != c {
+						continue // global bounds are combined with the shapes without modifiers
+					}
+					q := &bqlm.Query{From: []string{"?g"}, Where: []bqlm.Clause{vc}, GlobalKind: g.kind, GLo: g.lo, GHi: g.hi}
 					q.Proj = bqlm.SelectAll(q.Where)
-					t1, t2 := model.T1, model.T2
-					if g.lo {
-						q.GLo = &t1
-					}
-					if g.hi {
-						q.GHi = &t2
-						if g.kind == "before" {
-							q.GHi = &t1
-						}
-					}
 					qs = append(qs, q)
 				}
 			}
@@ -397,17 +112,19 @@ func oneClauseQueries(pairs bool) []*bqlm.Query {
 
 func runOneClause(r *common.Run, st *stats) {
 	qs := oneClauseQueries(r.Thorough())
-	u := bqlm.Universe6()
+	u := bqlm.Universe8()
 	r.Set("one_clause_shapes", len(qs))
-	r.Set("one_clause_data_subsets", 1<<uint(len(u)))
-	common.ParallelFor(1<<uint(len(u)), func(mask int) {
+	masks := bqlm.Masks(len(u), r.Thorough())
+	r.Set("one_clause_data_subsets", len(masks))
+	common.ParallelFor(len(masks), func(mi int) {
+		mask := masks[mi]
 		if r.OutOfTime() {
 			return
 		}
 		data := map[string][]*triple.Triple{"?g": bqlm.Subset(u, mask)}
 		store := bqlm.NewStore(data)
 		for i, q := range qs {
-			v := compare(q, store, data, 0)
+			v := bqlm.Compare(q, store, data, 0)
 			report(r, st, "one", fmt.Sprintf("one:%d:%d", i, mask), q, data, v)
 		}
 	})
@@ -421,7 +138,8 @@ func runOneClause(r *common.Run, st *stats) {
 		}
 	}
 	r.Set("multi_graph_shapes", len(plain))
-	common.ParallelFor(1<<uint(len(u)), func(mask int) {
+	common.ParallelFor(len(masks), func(mi int) {
+		mask := masks[mi]
 		if r.OutOfTime() {
 			return
 		}
@@ -441,7 +159,7 @@ func runOneClause(r *common.Run, st *stats) {
 			for i, q0 := range plain {
 				q := *q0
 				q.From = []string{"?g", "?h"}
-				v := compare(&q, store, data, 0)
+				v := bqlm.Compare(&q, store, data, 0)
 				report(r, st, "multi", fmt.Sprintf("multi:%d:%d:%d", i, mask, variant), &q, data, v)
 			}
 		}
@@ -457,14 +175,14 @@ func twoClauseGraphs() []map[string][]*triple.Triple {
 	gs := [][]*triple.Triple{
 		{},
 		{T(a, p, model.ON(b))},
-		{T(a, p, model.ON(b)), T(b, p, model.ON(c)), T(c, p, model.ON(a))},                                  // cycle
-		{T(a, p, model.ON(b)), T(a, p1, model.ON(b)), T(a, p2, model.ON(b)), T(b, p1, model.ON(c))},         // same id, three kinds
-		{T(a, p, model.OL(bqlm.LInt)), T(a, q, model.OL(bqlm.LInt)), T(c, p, model.OL(bqlm.LText))},         // literals shared as objects
-		{T(a, q, model.OP(p1)), T(a, p1, model.ON(b)), T(c, q, model.OP(p)), T(a, p, model.ON(c))},          // predicate-valued objects equal to real predicates
-		{T(a, p, model.ON(a)), T(c, p, model.ON(c)), T(a, p1, model.ON(c))},                                 // self loops
-		{T(a, p, model.ON(b)), T(a, p, model.OL(bqlm.LInt)), T(a, p, model.OP(p1)), T(b, p1, model.OP(p2))}, // mixed object kinds in one column
-		{T(a, p1, model.OP(p1)), T(c, p2, model.OP(p2)), T(a, p2, model.OP(p1))},                            // anchors equal across P and O
-		bqlm.Universe6(),
+		{T(a, p, model.ON(b)), T(b, p, model.ON(c)), T(c, p, model.ON(a))},                                                                                    // cycle
+		{T(a, p, model.ON(b)), T(a, p1, model.ON(b)), T(a, p2, model.ON(b)), T(b, p1, model.ON(c)), T(a, bqlm.QT2, model.ON(b)), T(b, bqlm.QT2, model.ON(c))}, // same id in three kinds, other id temporal
+		{T(a, p, model.OL(bqlm.LInt)), T(a, q, model.OL(bqlm.LInt)), T(c, p, model.OL(bqlm.LText))},                                                           // literals shared as objects
+		{T(a, q, model.OP(p1)), T(a, p1, model.ON(b)), T(c, q, model.OP(p)), T(a, p, model.ON(c))},                                                            // predicate-valued objects equal to real predicates
+		{T(a, p, model.ON(a)), T(c, p, model.ON(c)), T(a, p1, model.ON(c))},                                                                                   // self loops
+		{T(a, p, model.ON(b)), T(a, p, model.OL(bqlm.LInt)), T(a, p, model.OP(p1)), T(b, p1, model.OP(p2))},                                                   // mixed object kinds in one column
+		{T(a, p1, model.OP(p1)), T(c, p2, model.OP(p2)), T(a, p2, model.OP(p1))},                                                                              // anchors equal across P and O
+		bqlm.Universe8(),
 	}
 	var out []map[string][]*triple.Triple
 	for _, g := range gs {
@@ -494,7 +212,7 @@ func runTwoClause(r *common.Run, st *stats) {
 				q.Proj = bqlm.SelectAll(named)
 				atomic.AddInt64(&shapes, 1)
 				for gi := range graphs {
-					v := compare(q, stores[gi], graphs[gi], 0)
+					v := bqlm.Compare(q, stores[gi], graphs[gi], 0)
 					report(r, st, "two", fmt.Sprintf("two:%d:%d:%d:%d", i, j, k, gi), q, graphs[gi], v)
 				}
 			}
@@ -523,16 +241,16 @@ func replay(raw json.RawMessage) (bool, string) {
 			qs = oneClauseQueries(false)
 		}
 		q := qs[n[0]]
-		data := map[string][]*triple.Triple{"?g": bqlm.Subset(bqlm.Universe6(), n[1])}
-		v := compare(q, bqlm.NewStore(data), data, 0)
-		return v.ok, v.detail
+		data := map[string][]*triple.Triple{"?g": bqlm.Subset(bqlm.Universe8(), n[1])}
+		v := bqlm.Compare(q, bqlm.NewStore(data), data, 0)
+		return v.Ok, v.Detail
 	case "two":
 		base := bqlm.BaseClauses()
 		named := bqlm.Namings([]bqlm.Clause{base[n[0]], base[n[1]]})[n[2]]
 		q := &bqlm.Query{From: []string{"?g"}, Where: named, Proj: bqlm.SelectAll(named)}
 		g := twoClauseGraphs()[n[3]]
-		v := compare(q, bqlm.NewStore(g), g, 0)
-		return v.ok, v.detail
+		v := bqlm.Compare(q, bqlm.NewStore(g), g, 0)
+		return v.Ok, v.Detail
 	}
 	return false, "replay of " + kind + " cases: re-run the statement in the file against the listed graphs"
 }
